@@ -119,7 +119,8 @@ class TabularPolicy(StateActionTable,ProbabilityTable,Policy):
         # it cannot return or if its outgoing probability is less than 1
         # states that are not transient are recurrent
         transient = (accessible & ~accessible.T).any(-1)
-        transient = (transient | (markov_process.sum(-1) < 1)) & ~absorbing_state_vec
+        outgoing_prob = markov_process.sum(-1)
+        transient = (transient | ((outgoing_prob < 1) & ~np.isclose(outgoing_prob, 1))) & ~absorbing_state_vec
         recurrent_states = ~transient & ~absorbing_state_vec
         negative_recurrent_states = recurrent_states & (state_rewards < 0)
         negative_recurrent_accessible_states = accessible[:, negative_recurrent_states].any(-1)
